@@ -141,7 +141,8 @@ def run(ctx):
     opd = mq_adt("OnParentDrop")
     fg = mq_adt("FlushGuard")
     ok1 = opd and any(v["name"] == "Wait" and any("FlushGuard" in f["ty"] for f in v["fields"]) for v in opd["variants"])
-    ok2 = fg and any("keep_alive::Guard" in f["ty"] for v in fg["variants"] for f in v["fields"])
+    from rules.c06 import keepalive_roles
+    ok2 = fg and any(f["ty"] in keepalive_roles(F)["guard"] for v in fg["variants"] for f in v["fields"])
     ctx.check(bool(ok1), "R13.4", SLOT + "OnParentDrop#wait-carries-flush-guard", "", "OnParentDrop::Wait no longer owns a FlushGuard")
     ctx.check(bool(ok2), "R13.4", SLOT + "FlushGuard#carries-keep-alive-guard", "", "FlushGuard no longer owns the keep-alive Guard")
     for nm in ("SlotGuard", "FlushGuard", "ForceFlushGuard"):
